@@ -12,6 +12,7 @@ package rueidis
 //@   ensures [C22 in-range] result == -1 || (startIdx <= result && result < len(nodes) && result < 255)
 //@   ensures [C22 same-az] result != -1 ==> nodes[result].AZ == clientAZ
 //@   ensures [C22 finds-match] (exists k int :: startIdx <= k && k < len(nodes) && k < 255 && nodes[k].AZ == clientAZ) ==> result != -1
+//@   ensures [C22 cursor-advances-once-per-pick] effects() == old(effects()) + ite(result != -1, 1, 0)
 //@   loop 0: invariant startIdx <= i && (i <= limit || i == startIdx) && 0 <= count && count < 8 && limit <= 255 && limit <= len(nodes)
 //@   loop 0: invariant forall j int :: 0 <= j && j < count ==> startIdx <= matches[j] && matches[j] < i && nodes[matches[j]].AZ == clientAZ
 //@   loop 0: invariant count == 0 ==> (forall k int :: startIdx <= k && k < i ==> nodes[k].AZ != clientAZ)
@@ -22,6 +23,7 @@ package rueidis
 //@   ensures [C22 in-range] result == -1 || (1 <= result && result < len(nodes))
 //@   ensures [C22 replica-if-any] len(nodes) > 1 ==> result != -1
 //@   ensures [C22 none] len(nodes) <= 1 ==> result == -1
+//@   ensures [C22 cursor-advances-once-per-pick] effects() == old(effects()) + ite(result >= 1, 1, 0)
 
 //@ func AZAffinityReplicasAndPrimaryNodeSelector$1
 //@   requires len(nodes) < 2147483648
@@ -31,6 +33,7 @@ package rueidis
 //@   ensures [C22 same-az-primary-second] (!(exists k int :: 1 <= k && k < len(nodes) && k < 255 && nodes[k].AZ == clientAZ) && len(nodes) > 0 && nodes[0].AZ == clientAZ) ==> result == 0
 //@   ensures [C22 any-replica-third] (!(exists k int :: 1 <= k && k < len(nodes) && k < 255 && nodes[k].AZ == clientAZ) && len(nodes) > 1 && nodes[0].AZ != clientAZ) ==> (1 <= result && result < len(nodes))
 //@   ensures [C22 none] (len(nodes) == 0 || (len(nodes) == 1 && nodes[0].AZ != clientAZ)) ==> result == -1
+//@   ensures [C22 cursor-advances-once-per-pick] effects() == old(effects()) + ite(result >= 1, 1, 0)
 
 //@ func newAZSelector$1
 //@   requires startIdx >= 0 && startIdx <= 1
@@ -40,6 +43,7 @@ package rueidis
 //@   ensures [C22 same-az-first] (exists k int :: startIdx <= k && k < len(nodes) && k < 255 && nodes[k].AZ == clientAZ) ==> (result != -1 && nodes[result].AZ == clientAZ)
 //@   ensures [C22 any-node-fallback] len(nodes) > startIdx ==> result != -1
 //@   ensures [C22 none] len(nodes) <= startIdx ==> result == -1
+//@   ensures [C22 cursor-advances-once-per-pick] effects() == old(effects()) + ite(result != -1, 1, 0)
 
 // ---------------------------------------------------------------------------------------------
 // C13 — RESP decoding never panics and never allocates far beyond the bytes received (resp.go).
@@ -130,3 +134,44 @@ package rueidis
 //@ func RedisMessage.AsFtSearch
 //@   safety C15
 //@   loop 4: invariant [C15] i >= 1
+
+// C15, second clause: a reply of the wrong shape yields an error (never a silent zero value), nil replies surface as
+// Nil and error replies as *RedisError. Stated on the basic accessors every helper builds on.
+//@ func RedisMessage.ToString
+//@   safety C15
+//@   inline
+//@   ensures [C15 string-reply-is-returned] (m.typ == '$' || m.typ == '+') ==> err == nil
+//@   ensures [C15 wrong-shape-is-error] (m.typ == ':' || m.typ == '*' || m.typ == '~' || m.typ == '%' || m.typ == '>' || m.typ == '|') && m.array != nil ==> err != nil
+//@   ensures [C15 integer-is-error] m.typ == ':' ==> err != nil
+//@   ensures [C15 nil-surfaces] m.typ == '_' ==> err != nil
+//@   ensures [C15 error-reply-surfaces] (m.typ == '-' || m.typ == '!') ==> err != nil
+
+//@ func RedisMessage.ToInt64
+//@   safety C15
+//@   inline
+//@   ensures [C15 int-reply-is-returned] m.typ == ':' ==> (err == nil && val == m.intlen)
+//@   ensures [C15 wrong-shape-is-error] m.typ != ':' ==> err != nil
+
+//@ func RedisMessage.ToBool
+//@   safety C15
+//@   inline
+//@   ensures [C15 bool-reply-is-returned] m.typ == '#' ==> (err == nil && (val <==> m.intlen == 1))
+//@   ensures [C15 wrong-shape-is-error] m.typ != '#' ==> err != nil
+
+//@ func RedisMessage.ToFloat64
+//@   safety C15
+//@   inline
+//@   ensures [C15 wrong-shape-is-error] m.typ != ',' ==> err != nil
+
+//@ func RedisMessage.ToArray
+//@   safety C15
+//@   inline
+//@   ensures [C15 array-reply-is-returned] (m.typ == '*' || m.typ == '~') ==> (result1 == nil && len(result0) == len(m.values()))
+//@   ensures [C15 wrong-shape-is-error] (m.typ != '*' && m.typ != '~') ==> result1 != nil
+
+//@ func RedisMessage.Error
+//@   safety C15
+//@   inline
+//@   ensures [C15 nil-surfaces] m.typ == '_' ==> result != nil
+//@   ensures [C15 error-reply-surfaces] (m.typ == '-' || m.typ == '!') ==> (result != nil && typeis(result, *RedisError))
+//@   ensures [C15 other-replies-are-not-errors] (m.typ != '_' && m.typ != '-' && m.typ != '!') ==> result == nil
